@@ -86,7 +86,7 @@ func (f *Fix) RoutedIDs() []string {
 // the non-fresh states on which the matrices are executed again: positions with accrued interest, partially
 // repaid / topped-up positions, an already liquidated vault, extra orders.
 func (f *Fix) RandomPrefix(s *sim.Env, rng *sim.Rng, steps int) []string {
-	var done []string
+	done := []string{}
 	users := []sdk.AccAddress{f.Owner, f.Other}
 	amt := func() int64 { return []int64{1, 2, 3, 5, 8}[rng.Intn(5)] * unit }
 	liquidated := false
